@@ -323,8 +323,23 @@ func runIDsChannels(o vh.Opts, rng *vh.RNG, rep *vh.Report, tmp string) {
 	if o.Thorough() {
 		sizes = append(sizes, 4095, 8192, 9000, 12288, 12289, 5000, 3)
 	}
-	for _, n := range sizes {
+	for si, n := range append(sizes, sizes...) {
 		ids, pos := genSortedIDs(rng, n)
+		sameMS := si >= len(sizes)
+		if sameMS { // a run of same-millisecond ids (descending RIDs) straddling every 4096-LID block boundary
+			if n <= 4096 {
+				continue
+			}
+			for b := 4096; b < n; b += 4096 {
+				lo, hi := max(1, b-7), min(n-1, b+7)
+				for k := lo; k <= hi; k++ {
+					ids[k] = seq.ID{MID: ids[lo].MID, RID: ids[lo].RID - seq.RID(k-lo)*3}
+				}
+				for k := hi + 1; k < n && !seq.Less(ids[k], ids[hi]); k++ { // keep the order strictly descending after the run
+					ids[k] = seq.ID{MID: ids[hi].MID - 1, RID: seq.RID(1<<40) - seq.RID(k)}
+				}
+			}
+		}
 		var lids []int
 		for _, c := range []int{0, 1, 2, 4095, 4096, 4097, 8191, 8192, 8193, 12287, 12288, n - 2, n - 1, n, n + 1, n + 4096, n + 5000} {
 			for d := -1; d <= 1; d++ {
@@ -335,6 +350,13 @@ func runIDsChannels(o vh.Opts, rng *vh.RNG, rep *vh.Report, tmp string) {
 		}
 		for k := 0; k < o.Pick(6, 120); k++ {
 			lids = append(lids, rng.Intn(n+2))
+		}
+		if sameMS {
+			for b := 4096; b < n; b += 4096 {
+				for d := -8; d <= 8; d++ {
+					lids = append(lids, b+d)
+				}
+			}
 		}
 		var qs []string
 		for _, lid := range lids {
@@ -367,7 +389,7 @@ func runIDsChannels(o vh.Opts, rng *vh.RNG, rep *vh.Report, tmp string) {
 		for start := 0; start < len(qs); start += 400 {
 			line := fmt.Sprintf("ids.query 4096 %s %s %s", idsS, posS, strings.Join(qs[start:min(start+400, len(qs))], ";"))
 			impl, _ := idsAnswer(line, dir)
-			q.Add(line, impl, n > 4096, fmt.Sprintf("n=%d", n))
+			q.Add(line, impl, n > 4096, fmt.Sprintf("n=%d", n), fmt.Sprintf("same-ms-run=%v", sameMS))
 			q.Distribution["queries"] += min(400, len(qs)-start)
 		}
 	}
